@@ -89,6 +89,75 @@ func c14Canon(name string) string {
 	return name
 }
 
+// c14DetachRace: a session is evicted from a p2p topic (another session of its user unsubscribes), which queues an
+// asynchronous detach request for its write loop; the session subscribes again before that request is handled.
+// Injected delays hold the write loop inside the handling of the request. The new subscription must survive,
+// a repeated {sub} must find the session attached, and the user must be counted once per attached session.
+func c14DetachRace(e *vfEnv, r *vfkit.R, rng *rand.Rand, idx int) {
+	w := vfNewWorld(e, r, rng)
+	defer func() { w.closeAll(); e.vfQuiesceD(20 * time.Second) }()
+	ua, ub := w.user(fmt.Sprintf("d%da", idx), auth.LevelAuth), w.user(fmt.Sprintf("d%db", idx), auth.LevelAuth)
+	a1, a2, b := w.conn(ua, false), w.conn(ua, false), w.conn(ub, false)
+	bn := ub.uid.UserId()
+	topic := ua.uid.P2PName(ub.uid)
+	a1.sub(bn, nil)
+	a2.sub(bn, nil)
+	b.sub(ua.uid.UserId(), nil)
+	e.vfQuiesce()
+	var sid string
+	globals.sessionStore.lock.Lock()
+	for id, x := range globals.sessionStore.sessCache {
+		if x.userAgent == "vf/"+a1.name {
+			sid = id
+		}
+	}
+	globals.sessionStore.lock.Unlock()
+	held := make(chan struct{}, 4)
+	var once sync.Once
+	hold := func(arg string) {
+		if arg == topic+"|"+sid {
+			once.Do(func() { held <- struct{}{}; time.Sleep(120 * time.Millisecond) })
+		}
+	}
+	which := []string{"delStaleSubEnter", "delStaleSubBeforeDel"}[idx%2]
+	fps := map[string]func(string){which: hold}
+	vfFPs.Store(&fps)
+	defer vfFPs.Store(nil)
+	f0 := a2.leave(bn, true)
+	select {
+	case <-held:
+	case <-time.After(5 * time.Second):
+		r.InfoAdd("detach_race_failpoint_not_reached:"+which, 1)
+		return
+	}
+	// a1 has been evicted and its write loop is held in the middle of the detach request
+	f1 := a1.sub(bn, nil)
+	time.Sleep(200 * time.Millisecond)
+	e.vfQuiesce()
+	f2 := a1.sub(bn, nil)
+	e.vfQuiesce()
+	r.Hit("resubscribe_racing_detach_request")
+	r.Eval(fmt.Sprintf("detach-race/%s/%s/%s", which, codeStr(f1), codeStr(f2)))
+	script := []string{"a1, a2 attach p2p; a2 {leave unsub} -> " + codeStr(f0) + " (evicts a1, detach request held at " + which + ")",
+		"a1 {sub} -> " + codeStr(f1), "detach request handled", "a1 {sub} again -> " + codeStr(f2)}
+	t := globals.hub.topicGet(topic)
+	if t == nil || f1 == nil || f1.code() >= 300 {
+		return
+	}
+	attached := 0
+	for s2, p2 := range t.sessions {
+		if p2.uid == ua.uid && !s2.background {
+			attached++
+		}
+	}
+	if pud := t.perUser[ua.uid]; pud.online != attached {
+		r.Violation("online-counter:p2p:detach-race", fmt.Sprintf("topic counts %d online sessions of the user, %d are attached", pud.online, attached), map[string]any{"script": script})
+	}
+	if f2 != nil && f2.code() == 200 {
+		r.Violation("resubscribed-session-lost-its-subscription", "a session which re-subscribed while an older detach request was pending was not found attached by its next {sub} (answered 200 instead of 304)", map[string]any{"script": script})
+	}
+}
+
 func c14Round(e *vfEnv, r *vfkit.R, rng *rand.Rand, round int) {
 	w := vfNewWorld(e, r, rng)
 	nusers := 3 + rng.Intn(2)
@@ -436,6 +505,9 @@ func TestVfC14(t *testing.T) {
 	e := vfBoot(vfConfig{Push: true})
 	vfInstallRecorder(e)
 	rng := r.Rand(1)
+	for i := 0; i < 2; i++ {
+		c14DetachRace(e, r, rng, i)
+	}
 	rounds := r.Pick(4, 12)
 	for i := 0; i < rounds; i++ {
 		c14Round(e, r, rng, i)
